@@ -321,19 +321,20 @@ def scen_target(flavour, alg, n_nodes, max_edges, methods, modes=('path', 'searc
                                 yield (flavour, alg, mode, method), with_step(b, 'search', spec, {'seq': seq})
 
 
-def scen_notarget(flavour, alg, n_nodes, max_edges, methods, prios=('min',), transposes=(False,), shapes=None):
+def scen_notarget(flavour, alg, n_nodes, max_edges, methods, prios=('min',), transposes=(False,), shapes=None, modes=('path',)):
     for seq in (shapes if shapes is not None else graph_shapes(n_nodes, max_edges)):
         b = base(flavour, n_nodes, seq, sym_nodevals=(alg == 'pfs'))
         for root in roots_for(seq, n_nodes):
             for method in methods:
                 for prio in prios:
                     for tr in transposes:
-                        spec = {'alg': alg, 'root': root, 'target': None, 'mode': 'path', 'method': method, 'transpose': tr}
+                      for mode in modes:
+                        spec = {'alg': alg, 'root': root, 'target': None, 'mode': mode, 'method': method, 'transpose': tr}
                         if alg == 'pfs':
                             spec['prio'] = prio
                         if method == 'filter':
                             spec['filter'] = {'s': 'F'}
-                        yield (flavour, alg, 'notarget', method), with_step(b, 'search', spec, {'seq': seq})
+                        yield (flavour, alg, 'notarget' if mode == 'path' else 'notarget-' + mode, method), with_step(b, 'search', spec, {'seq': seq})
 
 
 def scen_cycle(flavour, alg, n_nodes, max_edges, methods, prios=('min',), transposes=(False,), shapes=None):
@@ -421,7 +422,8 @@ def items_for(prop, tier):
     elif prop == 'C07':
         for fl in FLAVOURS:
             for alg in ('bfs', 'dfs', 'pfs'):
-                items += scen_notarget(fl, alg, n, m, ('foreach',), prios=('min', 'max') if alg == 'pfs' else ('min',))
+                # search() and search_path() run different loops in every algorithm: both without a target
+                items += scen_notarget(fl, alg, n, m, ('foreach',), prios=('min', 'max') if alg == 'pfs' else ('min',), modes=('path', 'search'))
                 items += scen_target(fl, alg, n, 2, ('filter',), modes=('path',))
                 items += scen_cycle(fl, alg, n, 2, ('filter',))
             items += scen_order(fl, n, m, ('foreach',), modes=('nodes',))
